@@ -35,7 +35,7 @@ CONFIG = dict(
     required_counters=("steps", "probes", "twin_probes", "context_exits_compared", "removals_checked"),
 )
 
-OPS = ["arm", "ml", "ml+", "ml-bad", "remove", "deact", "enter", "enter_shared", "leave", "leave_exc"]
+OPS = ["arm", "ml", "ml+", "ml-bad", "remove", "deact", "enter", "enter_shared", "leave", "leave_exc", "leave_refusal"]
 # additions of a type the API does not expect (a bare string, bytes entries, pairs, a number, None entries, no dot):
 # whatever the environment then does with a load, it must not execute the flagged pickle
 BAD_ADDITIONS = ["collections.Counter", [b"collections.Counter"], [("collections", "Counter")], 5, [None], ["nodot"],
@@ -54,7 +54,7 @@ def valid(hist):
             depth += 1
             if depth > 3:
                 return False
-        elif op in ("leave", "leave_exc"):
+        elif op in ("leave", "leave_exc", "leave_refusal"):
             if depth == 0:
                 return False
             depth -= 1
@@ -81,7 +81,7 @@ def histories(ctx):
             op = rng.choice(OPS)
             if op in ("enter", "enter_shared") and depth >= 3:
                 continue
-            if op in ("leave", "leave_exc"):
+            if op in ("leave", "leave_exc", "leave_refusal"):
                 if depth == 0:
                     continue
                 depth -= 1
@@ -203,10 +203,31 @@ def run_history(ctx, mods, hist):
                 cm.__enter__()
                 cms.append(cm)
                 model[0] = "checked"
-            elif op in ("leave", "leave_exc"):
+            elif op in ("leave", "leave_exc", "leave_refusal"):
                 cm = cms.pop()
                 if op == "leave":
                     cm.__exit__(None, None, None)
+                elif op == "leave_refusal":
+                    # the block is left by the very exception a refused load raised (whichever binding refuses first)
+                    import vp_sink
+                    refusal = None
+                    for i, fn in enumerate(bindings()):
+                        try:
+                            fn(io.BytesIO(FLAGGED)) if i % 2 == 0 else fn(FLAGGED)
+                        except BaseException as e:
+                            refusal = refusal or e
+                    del vp_sink.LOG[:]
+                    if refusal is None:
+                        cm.__exit__(None, None, None)
+                    else:
+                        try:
+                            if cm.__exit__(type(refusal), refusal, refusal.__traceback__):
+                                agg.violation("context-swallows-exception", "the safety context suppressed the refusal raised in its body", w)
+                        except BaseException as e2:
+                            agg.violation("context-exit-raises",
+                                          f"leaving the context by a refusal ({type(refusal).__name__}) made __exit__ raise {type(e2).__name__}: "
+                                          f"{str(e2)[:80]}", dict(w, steps=steps + [op]))
+                            return
                 else:
                     try:
                         raise ValueError("vp: leaving the context by exception")
